@@ -183,6 +183,15 @@ def check_pipeline(ctx, case) -> None:
         ctx.cls("route:Engine.configure")
     else:
         eng = build.mk_engine(spec)
+    if case.get("retext"):
+        # every Rule object first carries a differently weighted text, then its own text again, and the engine is
+        # restarted: the pipeline follows the current text (a missing `with` means weight 1)
+        for b, bo in zip(spec["blocks"], eng.rule_blocks):
+            for r, ro in zip(b["rules"], bo.rules):
+                ro.text = gen.rule_text(dict(r, weight=0.5))
+                ro.text = gen.rule_text(r)
+        eng.restart()
+        ctx.cls("route:retext+restart")
     ref = refengine.Ref(spec, mu=implmu.impl_mu)
     leaky = refengine.Ref(spec, leaky_consequent=True, mu=implmu.impl_mu)
     prev = {}
@@ -191,7 +200,7 @@ def check_pipeline(ctx, case) -> None:
     for k, row in enumerate(rows):
         for v, x in zip(eng.input_variables, row):
             v.value = float(x)
-        sub = {"spec": case["spec"], "rows": rows[: k + 1], "route": case.get("route")}
+        sub = {"spec": case["spec"], "rows": rows[: k + 1], "route": case.get("route"), "retext": case.get("retext")}
         try:
             res = ref.process(row, prev)
         except refengine.RefError as e:
@@ -268,7 +277,8 @@ def cases(draw):
         k = draw(st.integers(0, n - 1))
         rows[k] = list(rows[k])
         rows[k][draw(st.integers(0, len(spec["inputs"]) - 1))] = math.nan
-    return {"spec": spec, "rows": rows, "route": draw(st.sampled_from([None, None, None, None, "configure"]))}
+    return {"spec": spec, "rows": rows, "route": draw(st.sampled_from([None, None, None, None, "configure"])),
+            "retext": draw(st.integers(0, 5)) == 0}
 
 
 def shard(ctx, shard, nshards, ex):
